@@ -334,7 +334,12 @@ def check(ctx):
             ctx.ob("C04.1", um[0], ok,
                    f"align[{mode}]: with_scale = {want_ws}" if ok else
                    f"align[{mode}]: with_scale is {fmt(ws)}, expected "
-                   f"{want_ws}", key="C04.1:with_scale")
+                   f"{want_ws}", key="C04.1:with_scale",
+                   # (a value looked up in a table / taken from a mode object
+                   # that does not fold is not evidence)
+                   evidence=ws is not None and not any(
+                       x.op in ("named", "dict", "unknown") or
+                       "missing arg" in fmt(x)[:30] for x in ws.walk()))
             if n_all:
                 ok = xn is None and yn is None
                 msg = "neither point set is sliced"
@@ -372,7 +377,15 @@ def check(ctx):
                    f"align[{mode}]: applies {want}" if ok else
                    f"align[{mode}]: applied operations are "
                    f"{[e.data['name'].rsplit('.', 1)[1] + '@' + e.where for e in sorted(scales + trans, key=lambda e: e.idx)]}"
-                   f", expected {want}", key=f"C04.3:applied:{cs}:{cos}")
+                   f", expected {want}", key=f"C04.3:applied:{cs}:{cos}",
+                   # evidence: the operations that run under this flag
+                   # combination are all read (their conditions fold); a step
+                   # table / mode object that this run cannot resolve — every
+                   # operation then *may* run, or none is seen — is not
+                   evidence=bool(scales or trans) and not any(
+                       x.op in ("named", "dict") or
+                       (x.op == "call" and x.args[0].op == "cls")
+                       for e in scales + trans for x in e.live.walk()))
             for e in scales:
                 sv = (e.data["bound"] or {}).get("s")
                 ctx.ob("C04.3", e, sv is S,
